@@ -225,7 +225,9 @@ def check_guards(ctx, wm: WeaverModel):
     def data_dependent(v) -> bool:
         return any(isinstance(t, Term) and t.head in SEARCH for t in walk_vals(v))
     subs = [e for e in mf.ev.events if e.kind == 'subscript' and (data_dependent(Num(e.data['base'].length)) or data_dependent(e.data['index']))]
-    ctx.floor('C20.4', len(subs), 2, 'element reads in slice_by_value whose validity depends on the data (match array / searched index)')
+    found_tests = [e for e in mf.raises if any(data_dependent(g) for g in e.guard)]
+    # anti-vacuity: the lookups are there, either as element reads that must be guarded or (argmax / any style) as "not found" tests without a read that can fail
+    ctx.floor('C20.4', len(subs) + len(found_tests), 2, 'data-dependent lookups in slice_by_value (element reads of the match array / searched index, or "not found" tests)')
     for e in subs:
         ln = e.data['base'].length
         idx = e.data['index']
